@@ -19,6 +19,7 @@ import (
 
 // faultReader is the simulated stdin: short reads, early EOF, errors.
 type faultReader struct {
+	errReturned bool
 	data   []byte
 	pos    int
 	chunk  int
@@ -29,6 +30,7 @@ type faultReader struct {
 
 func (r *faultReader) Read(p []byte) (int, error) {
 	if r.failAt > 0 && r.pos >= r.failAt {
+		r.errReturned = true
 		return 0, &faultErr{"simulated read error"}
 	}
 	limit := len(r.data)
@@ -48,6 +50,7 @@ func (r *faultReader) Read(p []byte) (int, error) {
 	if r.failAt > 0 && r.pos+n > r.failAt {
 		n = r.failAt - r.pos
 		if n == 0 {
+			r.errReturned = true
 			return 0, &faultErr{"simulated read error"}
 		}
 	}
@@ -71,12 +74,16 @@ func (k *Kernel) procMain(p *Proc) {
 	ctx, cancel := context.WithCancel(context.Background())
 	stdout := &stampWriter{k: k}
 	stderr := &bufCloser{}
+	var stdinReader *faultReader
 
 	defer func() {
 		if r := recover(); r != nil {
 			res.Panic = fmt.Sprint(r)
 		}
 		cancel()
+		if stdinReader != nil {
+			res.StdinErrorReturned = stdinReader.errReturned
+		}
 		res.Stdout = k.Norm(stdout.buf.String())
 		res.Stderr = k.Norm(stderr.String())
 		res.Stamps = stdout.st
@@ -95,7 +102,8 @@ func (k *Kernel) procMain(p *Proc) {
 	session.SetStdout(stdout)
 	session.SetStderr(stderr)
 	if spec.HasStdin {
-		_ = session.SetStdin(&faultReader{data: spec.StdinBytes(), chunk: spec.StdinChunk, failAt: spec.StdinFailAt, eofAt: spec.StdinEOFAt, k: k})
+		stdinReader = &faultReader{data: spec.StdinBytes(), chunk: spec.StdinChunk, failAt: spec.StdinFailAt, eofAt: spec.StdinEOFAt, k: k}
+		_ = session.SetStdin(stdinReader)
 		session.CanReadStdin = true
 	} else {
 		_ = session.SetStdin(nil)
